@@ -835,9 +835,22 @@ def one_append_per_column(rep):
             missing, present = br.orelse, br.body
 
         def appends(stmts):
-            return [c for st in stmts for c in ast.walk(st) if isinstance(c, ast.Call)
-                    and isinstance(c.func, ast.Attribute) and c.func.attr == "append"
-                    and unparse(c.func.value).startswith("data[")]
+            """appends to a column of the result, written on data[...] or on a local that
+            holds it"""
+            out = []
+            for st in stmts:
+                for c in ast.walk(st):
+                    if not (isinstance(c, ast.Call) and isinstance(c.func, ast.Attribute)
+                            and c.func.attr == "append"):
+                        continue
+                    recv = c.func.value
+                    if isinstance(recv, ast.Name):
+                        lv = local_value(parent_stmt(c), recv.id, fn)
+                        if isinstance(lv, ast.AST):
+                            recv = lv
+                    if unparse(recv).startswith("data["):
+                        out.append(c)
+            return out
         m = appends(missing)
         ok_missing = len(m) == 1 and const_value(m[0].args[0]) is None \
             and unparse(m[0].args[0]) == "None"
